@@ -132,18 +132,27 @@ func (l *List) ToString(st funcGen.Stack[Value]) (string, error) {
 }
 
 func (l *List) String() string {
+	s, err := l.shortString(funcGen.NewEmptyStack[Value]())
+	if err != nil {
+		return fmt.Sprintf("error in list: %v", err)
+	}
+	return s
+}
+
+// shortString creates the string returned by String using the given stack to
+// evaluate the list.
+func (l *List) shortString(st funcGen.Stack[Value]) (string, error) {
 	var b bytes.Buffer
 	b.WriteString("[")
 	first := true
 	count := 10
-	st := funcGen.NewEmptyStack[Value]()
 	for v, err := range l.iterable(st) {
 		if err != nil {
-			return fmt.Sprintf("error in list: %v", err)
+			return "", err
 		}
 		if count == 0 {
 			b.WriteString(", ...]")
-			return b.String()
+			return b.String(), nil
 		}
 		if first {
 			first = false
@@ -152,13 +161,13 @@ func (l *List) String() string {
 		}
 		s, err := v.ToString(st)
 		if err != nil {
-			return fmt.Sprintf("error in list: %v", err)
+			return "", err
 		}
 		b.WriteString(s)
 		count--
 	}
 	b.WriteRune(']')
-	return b.String()
+	return b.String(), nil
 }
 
 func (l *List) ToList() (*List, bool) {
